@@ -12,7 +12,7 @@ TIERS = {
 }
 
 
-def iter_cases(ctx, conf, init_variants=True, want_random=True, with_reuse=True):
+def iter_cases(ctx, conf, init_variants=True, want_random=True, with_reuse=True, with_faults=True):
     """Yield (v, params, kind, delivery, origin)."""
     nk, nd = len(tok.KIND_NAMES), len(tok.DELIVERY)
     c = 0
@@ -97,6 +97,24 @@ def iter_cases(ctx, conf, init_variants=True, want_random=True, with_reuse=True)
         v = tuple(x for p_ in pieces for x in p_)
         c += 1
         yield v, params, rng.choice(("tuple", "char", "bytes")), rng.choice(tok.DELIVERY), "large_max_length"
+    # a transient fault of the source: one read() call raises, the next one succeeds.  Whether the exception reaches the
+    # caller or the tokenizer carries on, every token handed out is bound by the properties
+    if with_faults:
+        rng = ctx.rng("faults")
+        small_ = plain + (G.param_tuples(4, init=True) if init_variants else [])
+        names = sorted(tok.FAULTS)
+        for i in range(max(200, conf["random"] // 2)):
+            params = small_[rng.randrange(len(small_))] if i % 3 else G.random_params(rng, 8, init=None if init_variants else False)
+            v = G.structured_random(rng, params, 24)[:24]
+            if i % 4 == 0 and len(v) > 2:
+                # aimed: the fault arrives on the read that would complete max_length / right after a cut / at the end marker
+                k = rng.choice([x for x in (params[1], params[1] + 1, 2 * params[1], len(v), len(v) + 1) if 1 <= x <= len(v) + 1])
+            else:
+                k = rng.randint(1, len(v) + 1)
+            c += 1
+            yield v, params, rng.choice(tok.KIND_NAMES), f"{rng.choice(tok.DELIVERY)}|fault={k}:{names[i % len(names)]}", "source_fault"
+            if (c & 255) == 0 and ctx.out_of_time():
+                return
     # the same tokenizer OBJECT used on another stream first: every token of the second use is still bound by the property
     if not with_reuse:
         return
